@@ -324,7 +324,7 @@ _COV = {}
 
 
 def _coverage():
-    """Development aid (tools/coverage_report.sh): with VERIF_COVERAGE_DIR set, every worker measures which lines / branches of
+    """Development aid: with VERIF_COVERAGE_DIR set, every worker measures which lines / branches of
     the library its cases execute. Not used by the registered commands."""
     d = os.environ.get("VERIF_COVERAGE_DIR")
     if not d:
